@@ -317,6 +317,10 @@ func GenSelector(r *Rng, v *imgView) Selector {
 	case 8:
 		return Selector{Kind: SPartType, N: int64(r.Intn(6))}
 	case 9:
+		if len(v.digests) > 0 && r.Chance(1, 4) { // a proper prefix of a stored digest, or nothing at all
+			d := Pick(r, v.digests)
+			return Selector{Kind: SOCIDigest, Alg: "sha256", Hex: d[:Pick(r, []int{0, 1, 10, 63})]}
+		}
 		if len(v.digests) > 0 && r.Chance(3, 4) {
 			return Selector{Kind: SOCIDigest, Alg: "sha256", Hex: Pick(r, v.digests)}
 		}
